@@ -274,3 +274,37 @@ func ZZVerif_C03_Metadata() {
 		zzverif.Assert("round trip", back.FromBlock == from && back.FromBlock+uint64(back.Offset) == to && back.CreatedAt == created && back.CertType == ct && back.Version == types.CertificateMetadataV2)
 	}
 }
+
+// ZZVerif_C03_Exits: NB bridges with arbitrary fields (origin addresses may coincide, metadata of ML bytes each, arbitrary and
+// independent) are converted by the real flow code; exit k carries bridge k's fields, the hash of bridge k's own metadata, and
+// hashes to bridge k's leaf.
+func ZZVerif_C03_Exits() {
+	nb, ml := zzverif.Param("NB"), zzverif.Param("ML")
+	f := NewBaseFlow(log.GetDefaultLogger(), &zzL2{}, &zzStorage{}, zzL1Info{}, &zzLER{}, NewBaseFlowConfigDefault())
+	var bridges []bridgesync.Bridge
+	for i := 0; i < nb; i++ {
+		bridges = append(bridges, zzFlowBridge(uint64(i+1), 0, uint32(i), ml))
+	}
+	exits := f.getBridgeExits(bridges)
+	zzverif.Assert("one exit per bridge", len(exits) == nb)
+	if len(exits) != nb {
+		return
+	}
+	for k := range bridges {
+		b, be := bridges[k], exits[k]
+		bb := b
+		want := []byte(nil)
+		if len(b.Metadata) > 0 {
+			want = crypto.Keccak256(b.Metadata)
+		}
+		same := len(be.Metadata) == len(want)
+		for i := 0; same && i < len(want); i++ {
+			same = be.Metadata[i] == want[i]
+		}
+		zzverif.Assert("exit k carries the hash of bridge k's own metadata", same)
+		zzverif.Assert("exit k: fields of bridge k and the same leaf hash", be.LeafType.Uint8() == b.LeafType && be.TokenInfo.OriginNetwork == b.OriginNetwork &&
+			be.TokenInfo.OriginTokenAddress == b.OriginAddress && be.DestinationNetwork == b.DestinationNetwork && be.DestinationAddress == b.DestinationAddress &&
+			be.Amount.Cmp(b.Amount) == 0 && be.Hash() == (&bb).Hash())
+	}
+	zzverif.Reach("end")
+}
